@@ -658,10 +658,15 @@ class RevisionSpec_before(RevisionSpec):
         else:
             revno = r.revno - 1
             try:
-                revision_id = branch.get_rev_id(revno, revs)
+                if r.branch is branch:
+                    revision_id = branch.get_rev_id(revno, revs)
+                else:
+                    # The inner spec named another branch (revno:N:BRANCH):
+                    # its revno counts in that branch's history.
+                    revision_id = r.branch.get_rev_id(revno)
             except (errors.NoSuchRevision, errors.RevnoOutOfBounds) as err:
                 raise InvalidRevisionSpec(self.user_spec, branch) from err
-        return RevisionInfo(branch, revno, revision_id)
+        return RevisionInfo(r.branch, revno, revision_id)
 
     def _as_revision_id(self, context_branch):
         base_revision_id = RevisionSpec.from_string(self.spec)._as_revision_id(
